@@ -229,9 +229,27 @@ func reconnectScripted(w *trace.Writer, seed int64) bool {
 		<-closeDone
 	}
 	subDone := make(chan struct{})
+	// the caller's context: usually never done; sometimes it carries a deadline that expires while the client is
+	// connecting, streaming or backing off - Subscribe then returns although nobody has called Close
+	sctx := context.Background()
+	var ctxOnce sync.Once
+	if r.Intn(4) == 0 && e.closeAt != "before" {
+		var cf context.CancelFunc
+		sctx, cf = context.WithTimeout(sctx, time.Duration(20+r.Intn(200))*time.Millisecond)
+		defer cf()
+		e.closeAt = "never-by-script" // Close comes from the safety timer, long after the deadline
+		go func() {
+			<-sctx.Done()
+			ctxOnce.Do(func() { e.emit(trace.E{"ev": "ctxdone"}) })
+		}()
+	}
 	go func() {
 		e.emit(trace.E{"ev": "inv", "op": "Subscribe"})
-		err := rc.Subscribe(context.Background(), q, typ)
+		err := rc.Subscribe(sctx, q, typ)
+		if sctx.Err() != nil {
+			// the context was done before Subscribe returned: say so before the return is logged
+			ctxOnce.Do(func() { e.emit(trace.E{"ev": "ctxdone"}) })
+		}
 		res := "nil"
 		if err != nil {
 			res = "err"
@@ -239,6 +257,17 @@ func reconnectScripted(w *trace.Writer, seed int64) bool {
 		e.emit(trace.E{"ev": "ret", "op": "Subscribe", "res": res})
 		close(subDone)
 	}()
+	if sctx != context.Background() {
+		// the deadline ends Subscribe by itself
+		select {
+		case <-subDone:
+		case <-time.After(750*time.Millisecond + 20*client.RetryMaxDelay + 5*time.Second):
+			e.emit(trace.E{"ev": "hang", "what": "Subscribe does not return after its context's deadline"})
+			rc.Close()
+			return true
+		}
+		e.fire()
+	}
 	// Both calls return within the current back-off interval of Close being called: the first
 	// back-off is 250-750 ms whatever RetryBaseDelay says (DESIGN note N5); allow 20x on top.
 	bound := 750*time.Millisecond + 20*client.RetryMaxDelay + 5*time.Second
